@@ -98,7 +98,7 @@ mod e2e {
             out.push(format!("indexfile {tag} {id}"));
             for (del, list) in [(0, &f.packs), (1, &f.packs_to_delete)] {
                 for p in list {
-                    out.push(format!("index {tag} {id} {del} {} {} {}", p.id.to_hex().as_str(), p.size.map_or("-".to_string(), |s| s.to_string()), fmt_blobs(&p.blobs)));
+                    out.push(format!("index {tag} {id} {del} {} {} {} {}", p.id.to_hex().as_str(), p.size.map_or("-".to_string(), |s| s.to_string()), i32::from(p.time.is_some()), fmt_blobs(&p.blobs)));
                 }
             }
         }
@@ -573,6 +573,103 @@ fn packer_case(line: &str) -> String {
     }
 }
 
+// ---------------------------------------------------------------------------- repacker
+fn rd_entries(t: &mut Toks) -> Vec<hk::CopyEntry> {
+    let n = t.u();
+    (0..n)
+        .map(|_| {
+            let pack = Id::from_hex(t.s()).expect("pack hex");
+            let off = t.u() as u32;
+            let len = t.u() as u32;
+            let ul = t.i();
+            let id = Id::from_hex(t.s()).expect("id hex");
+            (pack, off, len, if ul < 0 { None } else { Some(ul as u32) }, id)
+        })
+        .collect()
+}
+
+fn fmt_chunks(cs: &[hk::CopyChunk]) -> String {
+    let mut s = format!("{}", cs.len());
+    for (pack, off, len, blobs) in cs {
+        let _ = write!(s, " C {} {} {} {}", pack.to_hex().as_str(), off, len, blobs.len());
+        for (id, o, l, u) in blobs {
+            let _ = write!(s, " {}:{}:{}:{}", id.to_hex().as_str(), o, l, u.map_or("-".to_string(), |u| u.to_string()));
+        }
+    }
+    s
+}
+
+/// coalesce: sort n { packhex off len ulen idhex }  -> chunks (CopyPackBlobs::coalesce, as copy_blobs)
+fn coalesce_case(line: &str) -> String {
+    let mut t = Toks::new(line);
+    let sort = t.u() == 1;
+    let es = rd_entries(&mut t);
+    guard(|| Ok(hk::coalesce_copy_blobs(&es, sort))).map_or_else(|e| e, |c| fmt_chunks(&c))
+}
+
+/// coalloc: n { packhex off len ulen idhex }  -> chunks (BlobLocations::coalesce over one pack, as prune)
+fn coalloc_case(line: &str) -> String {
+    let mut t = Toks::new(line);
+    let es = rd_entries(&mut t);
+    let pack = es.first().map_or_else(|| id_of_seed(0), |e| e.0);
+    guard(|| Ok(hk::coalesce_locations(pack, &es))).map_or_else(|e| e, |c| fmt_chunks(&c))
+}
+
+/// encblobs: n { hex }  -> the blobs encrypted with the source key (for `copy`, which decrypts)
+fn encblobs_case(line: &str) -> String {
+    let mut t = Toks::new(line);
+    let n = t.u();
+    let key = key_of_seed(KEYSEED);
+    (0..n).map(|_| hexs(&hk::encrypt_data(&key, &unhex(t.s())).unwrap())).collect::<Vec<_>>().join(" ")
+}
+
+/// repackrun: tpe fast sort npacks { packhex datahex } n { packhex off len ulen idhex }
+/// -> `ok k id:byteshex:ulen ... | chunks`  (bytes = raw bytes in the new pack for copy_fast,
+///    decrypted blob for copy), or err / panic
+fn repackrun_case(line: &str) -> String {
+    use rustic_testing::backend::in_memory_backend::InMemoryBackend;
+    let mut t = Toks::new(line);
+    let tpe = tpe_of(t.u());
+    let fast = t.u() == 1;
+    let sort = t.u() == 1;
+    let np = t.u();
+    let src = Arc::new(SliceBackend::default());
+    for _ in 0..np {
+        let id = Id::from_hex(t.s()).expect("pack hex");
+        let data = unhex(t.s());
+        let _ = src.packs.write().unwrap().insert(id, data.into());
+    }
+    let es = rd_entries(&mut t);
+    let key_src = key_of_seed(KEYSEED);
+    let key_dst = key_of_seed(KEYSEED + 1);
+    let dst = Arc::new(InMemoryBackend::new());
+    let dynsrc: Arc<dyn WriteBackend> = src.clone();
+    let dyndst: Arc<dyn WriteBackend> = dst.clone();
+    let r = guard(|| hk::repack_run(dynsrc, &key_src, dyndst, &key_dst, tpe, &es, fast, sort));
+    let chunks = match r {
+        Err(e) => return e,
+        Ok(c) => c,
+    };
+    let mut packs = dst.list_with_size(FileType::Pack).unwrap();
+    packs.sort();
+    let mut out = Vec::new();
+    for (id, size) in packs {
+        let bytes = dst.read_full(FileType::Pack, &id).unwrap();
+        let dynbe: Arc<dyn WriteBackend> = dst.clone();
+        let blobs = match hk::header_from_file(dynbe, &key_dst, id, None, size) {
+            Ok(b) => b,
+            Err(_) => return "badpack".to_string(),
+        };
+        for b in blobs {
+            let (bid, _tp, off, len, ul) = hk::blob_fields(&b);
+            let raw = &bytes[off as usize..(off + len) as usize];
+            let shown = if fast { raw.to_vec() } else { hk::decrypt_data(&key_dst, raw).unwrap_or_default() };
+            out.push(format!("{}:{}:{}", bid.to_hex().as_str(), hexs(&shown), ul.map_or("-".to_string(), |u| u.to_string())));
+        }
+    }
+    format!("ok {} {} | {}", out.len(), out.join(" "), fmt_chunks(&chunks))
+}
+
 fn main() {
     let args: Vec<String> = std::env::args().collect();
     let mode = args.get(2).map_or("codec", |s| s.as_str()).to_string();
@@ -582,6 +679,10 @@ fn main() {
         "fromfile" => for_each_case(fromfile_case),
         "build" => for_each_case(build_case),
         "packer" => for_each_case(packer_case),
+        "coalesce" => for_each_case(coalesce_case),
+        "coalloc" => for_each_case(coalloc_case),
+        "encblobs" => for_each_case(encblobs_case),
+        "repackrun" => for_each_case(repackrun_case),
         "e2e" => e2e::main(&args[1]),
         _ => panic!("unknown mode"),
     }
